@@ -51,7 +51,12 @@ class MeshLine1(MeshSimplex, Mesh):
             self,
             doflocs=newp,
             t=newt,
-            _subdomains=None,
+            # children of element k are 2 * k and 2 * k + 1
+            _subdomains=(None if self._subdomains is None else {
+                name: np.sort(np.concatenate((2 * np.asarray(ixs, dtype=np.int32),
+                                              2 * np.asarray(ixs, dtype=np.int32) + 1)))
+                for name, ixs in self._subdomains.items()
+            }),
         )
 
     def _adaptive(self, marked):
